@@ -174,9 +174,24 @@ func (db *ContractDB) parseFile(pkg, file string) {
 			}
 			return &Clause{Text: text, Expr: e, Props: cprops, Line: ln}
 		}
+		isDecoder := kw == "decoder"
+		if isDecoder {
+			kw = "func"
+		}
 		switch kw {
 		case "func", "method":
 			fc := db.parseFuncHeader(pkg, rest, ln, kw == "method")
+			if fc != nil && isDecoder && len(fc.Params) > 0 {
+				// decoder macro: total on any input, modifies only its receiver, result owns its memory
+				if c := mkClause("*" + fc.Params[0]); c != nil {
+					fc.Modifies = append(fc.Modifies, c)
+				}
+				fc.Own = append(fc.Own, "noalias")
+				if len(fc.Params) > 1 {
+					// memory proportional to the input: no single allocation exceeds max(4096, len(input))
+					fc.AllocBound = mkClause("max(4096, len(" + fc.Params[1] + "))")
+				}
+			}
 			curLoop = nil
 			curF = fc
 			if fc == nil {
